@@ -80,6 +80,11 @@ def pairs(ctx, rng, xr, ops):
                 fac = {"sqrt": np.sqrt(k), "lin": k, "none": 1.0}[op.scale]
                 sgn = signed_scale(op, x)
                 ok, why = scaled_equal(name, v0, vk, fac, f32 or op.peak, op.circ, abs_scale=None if sgn is None else vals(sgn))
+                emax = np.abs(E).reshape(E.shape[0], -1).max(1)
+                if not ok and ok is not None and f32 and name == "goda" and np.any((emax * min(k, 1.0)) ** 2 < 1e-28):
+                    ok, why = None, "squares of float32 densities underflow on this spectrum"
+                if not ok and ok is not None and name == "alpha" and (np.isinf(v0).any() or np.isinf(vk).any() or np.nanmax(np.abs(np.concatenate([v0.ravel(), vk.ravel()]))) > 1e37):
+                    ok, why = None, "Phillips fit beyond the float32 range on this grid"
                 if ok is None:
                     rec.skip(name, why)
                 elif ok:
@@ -228,6 +233,8 @@ def scaled_equal(name, v0, v1, fac, f32, circ, abs_scale=None):
     if circ:
         return bool(np.all(circ_diff(v1[m], v0[m]) <= (0.05 if f32 else 1e-6))), None
     rt = 3e-5 if f32 else 1e-9
+    if name in ("alpha", "gamma"):
+        rt = max(rt, 2e-4)      # float32 tail fits around a float32 peak frequency
     at = 1e-300
     if abs_scale is not None:
         # signed directional sum: rounding scales with the unsigned total, not with the (cancelling) result
